@@ -88,20 +88,24 @@ func (fr *frame) concInt(v value) value { return v }
 // searching outward from the model value.
 func (fr *frame) concTermSmall(t *Term) value {
 	ex := fr.i.ex
-	// Use the model's value first, then ask for different values until none is left.
+	// Try the model's value first, then ask for different values until none is left.
+	// The candidate depends on the model, so it is recorded in the decision and
+	// reused verbatim when the prefix is re-executed.
 	for n := 0; n < 4096; n++ {
-		var cur uint64
-		if ex.modelOK {
-			cur = evalTerm(t, ex.model, map[*Term]uint64{})
-		} else {
-			_, ok := ex.currentModel()
-			if !ok {
-				panic(engineError{"concretize: no model"})
+		cur, replay := ex.replayK()
+		if !replay {
+			if !ex.modelOK {
+				if _, ok := ex.currentModel(); !ok {
+					panic(engineError{"concretize: no model"})
+				}
 			}
 			cur = evalTerm(t, ex.model, map[*Term]uint64{})
 		}
 		kt := mkConst(cur, t.w, t.signed)
-		if ex.decide(mkEq(t, kt)) {
+		ex.pendingK = cur
+		got := ex.decide(mkEq(t, kt))
+		ex.pendingK = 0
+		if got {
 			return constToValue(kt, true)
 		}
 	}
